@@ -1,4 +1,5 @@
 import DilithiumVerif.Props.C08
+import DilithiumVerif.Impl.Api
 import DilithiumVerif.Lemmas.VerifySpec
 import DilithiumVerif.Lemmas.VerifyFips
 /-
@@ -130,5 +131,65 @@ theorem decoders_are_inverse_of_encoders (p : Params) (hp : p ∈ allParams) :
         h.length = p.k ∧ (∀ a ∈ h, Bits a) ∧ (idxOf h).length ≤ p.omega ∧ sig = sigEncode p.lvl p.omega ct z h) :=
   ⟨fun pk rho t1 h1 h2 h3 => unpack_pk_spec p hp pk h1 h2 rho t1 h3,
    fun sig ct z h h1 h2 h3 => unpack_sig_spec p hp sig h1 h2 ct z h h3⟩
+
+/-! ### the public entry points -/
+
+open DV.VerifyFips in
+theorem accepted_has_signature_length (p : Params) (hp : p ∈ allParams) (sig m pk : List Nat) (hpk : pk.length = p.pkBytes)
+    (hb : ∀ b ∈ sig, b < 256) (h : IsAccepted p pk m sig) : sig.length = p.sigBytes := by
+  by_cases hl : sig.length = p.sigBytes
+  · exact hl
+  · have := accepted_verify_true p hp sig m pk hpk hb false (verify_wrong_length p sig m pk hl) h
+    cases this
+
+open DV.VerifyFips in
+/-- ML-DSA.Verify (FIPS 204 Alg. 3) and HashML-DSA.Verify (Alg. 5) through the API: true exactly when the context is at most
+    255 bytes and Verify_internal accepts the framed message M′ (C07: M′ = 0 ‖ |ctx| ‖ ctx ‖ M, resp. 1 ‖ |ctx| ‖ ctx ‖ OID ‖ PH(M)) -/
+theorem mldsa_verify_iff_spec (p : Params) (hp : p ∈ allParams) (pk msg sig : List Nat) (ctx : Option (List Nat))
+    (hpk : pk.length = p.pkBytes) (hpb : ∀ b ∈ pk, b < 256) (hb : ∀ b ∈ sig, b < 256) (b : Bool)
+    (hv : mldsa_verify p pk msg sig ctx = .ok b) :
+    b = true ↔ ∃ m, frame_pure msg ctx = some m ∧ IsAccepted p pk m sig := by
+  unfold mldsa_verify at hv
+  by_cases hl : sig.length ≠ p.sigBytes
+  · rw [if_pos hl] at hv; injection hv with hv; subst hv
+    refine ⟨fun h => (by cases h), fun ⟨m, _, hA⟩ => absurd (accepted_has_signature_length p hp sig m pk hpk hb hA) hl⟩
+  · rw [if_neg hl] at hv
+    cases hf : frame_pure msg ctx with
+    | none => rw [hf] at hv; injection hv with hv; subst hv; exact ⟨fun h => (by cases h), fun ⟨m, hm, _⟩ => by cases hm⟩
+    | some m =>
+      rw [hf] at hv
+      simp only at hv
+      have := verify_iff_accepted p hp sig m pk hpk hpb hb b hv
+      exact ⟨fun h => ⟨m, rfl, this.mp h⟩, fun ⟨m', hm', hA⟩ => by injection hm' with hm'; subst hm'; exact this.mpr hA⟩
+
+open DV.VerifyFips in
+theorem mldsa_prehash_verify_iff_spec (p : Params) (hp : p ∈ allParams) (pk phm sig : List Nat) (ctx : Option (List Nat)) (ph : PH)
+    (hpk : pk.length = p.pkBytes) (hpb : ∀ b ∈ pk, b < 256) (hb : ∀ b ∈ sig, b < 256) (b : Bool)
+    (hv : mldsa_prehash_verify p pk phm sig ctx ph = .ok b) :
+    b = true ↔ ∃ m, frame_prehash phm ctx ph = some m ∧ IsAccepted p pk m sig := by
+  unfold mldsa_prehash_verify at hv
+  by_cases hl : sig.length ≠ p.sigBytes
+  · rw [if_pos hl] at hv; injection hv with hv; subst hv
+    refine ⟨fun h => (by cases h), fun ⟨m, _, hA⟩ => absurd (accepted_has_signature_length p hp sig m pk hpk hb hA) hl⟩
+  · rw [if_neg hl] at hv
+    cases hf : frame_prehash phm ctx ph with
+    | none => rw [hf] at hv; injection hv with hv; subst hv; exact ⟨fun h => (by cases h), fun ⟨m, hm, _⟩ => by cases hm⟩
+    | some m =>
+      rw [hf] at hv
+      simp only at hv
+      have := verify_iff_accepted p hp sig m pk hpk hpb hb b hv
+      exact ⟨fun h => ⟨m, rfl, this.mp h⟩, fun ⟨m', hm', hA⟩ => by injection hm' with hm'; subst hm'; exact this.mpr hA⟩
+
+open DV.VerifyFips in
+/-- Dilithium 3.1 Verify through the API -/
+theorem dil_verify_iff_spec (p : Params) (hp : p ∈ allParams) (pk msg sig : List Nat)
+    (hpk : pk.length = p.pkBytes) (hpb : ∀ b ∈ pk, b < 256) (hb : ∀ b ∈ sig, b < 256) (b : Bool)
+    (hv : dil_verify p pk msg sig = .ok b) : b = true ↔ IsAccepted p pk msg sig := by
+  unfold dil_verify at hv
+  by_cases hl : sig.length ≠ p.sigBytes
+  · rw [if_pos hl] at hv; injection hv with hv; subst hv
+    exact ⟨fun h => (by cases h), fun hA => absurd (accepted_has_signature_length p hp sig msg pk hpk hb hA) hl⟩
+  · rw [if_neg hl] at hv
+    exact verify_iff_accepted p hp sig msg pk hpk hpb hb b hv
 
 end DV.C03
